@@ -2907,3 +2907,68 @@ func existenceGuardFor(p *Program, b *ssa.BasicBlock, subject func(ssa.Value) bo
 	}
 	return "", false
 }
+
+// ---------------------------------------------------------------------------
+// LEAF-COUNT-MONOTONE (R01f / R11i). The leaf count is the number of leaves
+// ever added: positions, PrevNumLeaves in the update data and the agreement of
+// the three implementations all rest on it. While a block is applied, every
+// store into a NumLeaves field must therefore be an increment of the value
+// read from that same field (n+1, n+len(adds)); a reset - "start over from a
+// blank forest once everything was deleted" - breaks all three.
+
+func checkLeafCountMonotone(p *Program, r *Report, rule string, entryNames []string) {
+	n := 0
+	for _, en := range entryNames {
+		e := p.Func(en)
+		if e == nil {
+			r.MissingAnchor(rule, en, "block-application entry not found")
+			continue
+		}
+		reach := p.StaticReach(e)
+		reach[e] = true
+		stores := 0
+		var bad ssa.Instruction
+		for _, g := range sortedFuncs(p, reach) {
+			if g.Blocks == nil || !p.owns(g) {
+				continue
+			}
+			for _, b := range g.Blocks {
+				for _, in := range b.Instrs {
+					st, ok := in.(*ssa.Store)
+					if !ok {
+						continue
+					}
+					fa, ok := st.Addr.(*ssa.FieldAddr)
+					if !ok || fieldName(fa.X.Type(), fa.Field) != "NumLeaves" {
+						continue
+					}
+					stores++
+					inc := false
+					if bo, ok := st.Val.(*ssa.BinOp); ok && bo.Op == token.ADD {
+						for _, side := range []ssa.Value{bo.X, bo.Y} {
+							if u, ok := side.(*ssa.UnOp); ok {
+								if fa2, ok := u.X.(*ssa.FieldAddr); ok && fa2.Field == fa.Field && fa2.X == fa.X {
+									inc = true
+								}
+							}
+						}
+					}
+					if !inc && bad == nil {
+						bad = in
+					}
+				}
+			}
+		}
+		n++
+		key := en + "/leaf-count"
+		switch {
+		case bad != nil:
+			r.Violate(rule, key, posOf(p, bad), "while a block is applied the leaf count is stored with a value that is not an increment of itself (in "+p.FuncName(bad.Parent())+"): the count of leaves ever added is lost, and with it every later position, PrevNumLeaves and the agreement with the other implementations", "reached from "+en)
+		case stores == 0:
+			r.Undecided(rule, key, p.Pos(e.Pos()), "no store into the leaf count found under this entry")
+		default:
+			r.Discharge(rule, key, p.Pos(e.Pos()), fmt.Sprintf("all %d stores into the leaf count are increments of its own value", stores), true)
+		}
+	}
+	r.Floor(rule, "block-application entries", n, len(entryNames))
+}
